@@ -22,6 +22,24 @@ with tempfile.TemporaryDirectory() as td:
         if not any(c.tag in ("failure", "error", "skipped") for c in tc):
             passed.add(f"{tc.get('classname')}::{tc.get('name')}")
 missing = sorted(stable - passed)
+import shutil
+shutil.rmtree(os.path.join(repo, ".hypothesis", "examples"), ignore_errors=True)
+if missing and len(missing) <= 5:
+    # hypothesis-driven tests are randomly seeded; re-run the few failures alone twice
+    ids = [m.replace(".", "/", m.split("::")[0].count(".")).replace("::", ".py::", 1) for m in missing]
+    still = set(missing)
+    for _ in range(2):
+        env2 = dict(os.environ); env2["PATH"] = "/venv/bin:" + env2.get("PATH", "")
+        if repo != "/repo":
+            env2["PYTHONPATH"] = os.path.join(repo, "src")
+        for m, tid in zip(missing, ids):
+            r = subprocess.run(["/venv/bin/python", "-m", "pytest", "-q", "-p", "no:cacheprovider", "-n0", tid],
+                               cwd=repo, env=env2, capture_output=True, text=True)
+            shutil.rmtree(os.path.join(repo, ".hypothesis", "examples"), ignore_errors=True)
+            if r.returncode == 0:
+                still.discard(m)
+                print("  flaky (passed on re-run):", m)
+    missing = sorted(still)
 print(f"stable={len(stable)} passed_now={len(passed)} stable_missing={len(missing)}")
 for m in missing[:30]:
     print("  NOT PASSING:", m)
